@@ -24,6 +24,9 @@ def Cases(tier):
       name, fn = families.C08_FAMILIES[(i - n) % len(families.C08_FAMILIES)]
       prog, query, feats = fn(rng)
       inter = [q for q in query if q in meta.Intermediates(prog)]
+      if not inter:
+        # the intermediates are helpers that the family does not query
+        inter = list(meta.Intermediates(prog))
     else:
       profile = gen.CORE if i % 2 == 0 else gen.AGG7
       prog, query, feats = gen.Generate(rng, profile)
